@@ -13,3 +13,13 @@ add("C01", "PBT with reference interpreter (differential): generated component p
     "Generated component libraries + pages (slots named/default/required/repeated/nested in defaults and fills/in loops, fills named/conditional/looped/dynamically named/aliased, `only`) are rendered under both context_behavior values and compared with the page text computed by an independent reference interpreter; expected-error programs must raise TemplateSyntaxError; the dynamic-component and Component.render(slots=...) variants must equal the tag form. Sampled (1.6k programs x 2 modes quick, 40k thorough), failures minimised structurally.",
     "Trusted: the reference interpreter (vf/gen/pg.py). Non-termination is detected by a deterministic instance budget in generated get_context_data and by RecursionError. Known finding C01-K1 (dynamic component, django mode, deferred tag with scoped bindings) is attributed by a structural predicate.",
     engine="PG")
+
+add("C14", "PBT with reference interpreter: expected render-id sets per element derived from the interpreter's output tree; deep self-recursive chain",
+    "Generated component programs with marked elements are rendered under both context behaviours; for every element the set of data-djc-id-* attributes must correspond (as per-instance root signatures) to the instances for which the interpreter says the element is top-level; ids echoed by Component.id must match; ids distinct (also with the real random generator); chain component at depths up to 200 (quick) / 2000 (thorough).",
+    "Trusted: reference interpreter; regex scan of well-formed generated HTML. Pages whose text already disagrees with the interpreter are left to C01.",
+    engine="PG")
+
+add("C05", "PBT with reference interpreter: nearest-enclosing-provider computed on the rendered structure; render sequences in one process vs solo renders",
+    "Generated component programs with nested / shadowing / looped / page-level / in-template {% provide %} blocks and injecting components are rendered under both context behaviours; the multiset of values returned by inject() (payload, default or KeyError) and the page text must equal the reference interpreter's; sequences of 2-4 renders (optionally with a failing render in between) in one process without resetting the library's registries must equal the solo renders.",
+    "Trusted: reference interpreter (providers dynamically scoped along the rendered structure). {% provide %} around {% fill %} tags is not generated.",
+    engine="PG")
